@@ -351,6 +351,7 @@ class Server:
         self.starttls_cap = starttls
         self.sasl = list(sasl) if sasl is not None else None
         self.post_tls_sasl = post_tls_caps
+        self.injected_sasl = ("LOGIN",)
         self.users = users or {}
         self.scripts = dict(scripts or {})  # name(bytes) -> content(bytes), ordered
         self.active = active
@@ -560,6 +561,12 @@ class Server:
             return
         self.final("OK", None, b"Begin TLS negotiation now.")
         self.starttls_pending = True
+        if self.faults.get("STARTTLS") == "OK+plaintext-listing":
+            # bytes that arrive in clear text behind the OK (a man in the middle can append
+            # them): a capability listing naming other mechanisms than the real, encrypted one
+            self.emit(b'"IMPLEMENTATION" "injected"\r\n"SASL" '
+                      + quoted(" ".join(self.injected_sasl).encode()) + CRLF
+                      + b'"SIEVE" "fileinto"\r\nOK "TLS negotiation successful."\r\n')
 
     def do_havespace(self, args):
         if not self._want(args, "str", "num"):
